@@ -312,13 +312,9 @@ VARIANTS = [
                 match ctail_attempt.commit_attempt(1, Release) {""")], kind='refactor'),
     V('rf-recv-examine-each-iter', None, [], [E(MQ, """        self.examine_signals();
         loop {
-            match self.queue.try_recv(&self.reader) {
-                Ok(v) => return Ok(v),
-                Err((_, TryRecvError::Disconnected)) => return Err(RecvError),""", """        loop {
+            // Loaded before the attempt so it can never be ahead of the slot the""", """        loop {
             self.examine_signals();
-            match self.queue.try_recv(&self.reader) {
-                Ok(v) => return Ok(v),
-                Err((_, TryRecvError::Disconnected)) => return Err(RecvError),""")], kind='refactor'),
+            // Loaded before the attempt so it can never be ahead of the slot the""")], kind='refactor'),
 
     # ---------------------------------------------------------------- waiting / waking
     V('senddrop-no-notify', 'C07', ['P8'], [E(MQ, """        self.queue.manager.remove_token(self.token);
@@ -367,13 +363,11 @@ VARIANTS = [
     }""")]),
     V('recv-empty-ends', 'C07', ['P6b'], [E(MQ, """                Err((_, TryRecvError::Disconnected)) => return Err(RecvError),
                 Err((pt, TryRecvError::Empty)) => {
-                    let count = self.reader.load_count(Relaxed);
                     unsafe {
                         self.queue.waiter.wait(count, &*pt, &self.queue.writers);
                     }
                 }""", """                Err((_, TryRecvError::Disconnected)) => return Err(RecvError),
                 Err((pt, TryRecvError::Empty)) => {
-                    let count = self.reader.load_count(Relaxed);
                     if count == usize::MAX - 7 {
                         return Err(RecvError);
                     }
@@ -383,13 +377,11 @@ VARIANTS = [
                 }""")]),
     V('poll-empty-is-none', 'C07', ['P6b'], [E(MQ, """                Err((_, TryRecvError::Disconnected)) => return Ok(Async::Ready(None)),
                 Err((pt, _)) => {
-                    let count = self.reader.reader.load_count(Relaxed);
                     if unsafe { self.wait.fut_wait(count, &*pt, &self.reader.queue.writers) } {
                         return Ok(Async::NotReady);
                     }
                 }""", """                Err((_, TryRecvError::Disconnected)) => return Ok(Async::Ready(None)),
                 Err((pt, _)) => {
-                    let count = self.reader.reader.load_count(Relaxed);
                     if unsafe { self.wait.fut_wait(count, &*pt, &self.reader.queue.writers) } {
                         return Ok(Async::NotReady);
                     }
